@@ -686,6 +686,11 @@ def while_loop(I: Interp, st: ast.While, fr: Frame) -> None:
         if lc.progress:
             I.prove(f"{key[0]}/loop{key[1]}/measure-decreases", lc.progress(I, fr, snap))
         raise PathAbort()
+    on_exit = getattr(lc, "on_exit", None)
+    if on_exit is not None:
+        # obligations about the state in which the loop is *left* (invariant and negated guard)
+        for name, f in on_exit(I, fr):
+            I.prove(f"{key[0]}/loop{key[1]}/exit:{name}", f)
     I.exec_block(st.orelse, fr)
 
 
